@@ -8,7 +8,7 @@ REPO="${VP_RUN_REPO:-/repo}"
 [ -n "$(git -C "$REPO" status --porcelain)" ] && { echo "$REPO working tree is not clean"; exit 2; }
 trap 'git -C "$REPO" checkout -q -- .' EXIT
 missed=0
-for d in seeded/*/; do
+for d in "$PWD"/seeded/*/; do
   id=$(basename "$d"); prop=$(python3 -c "import json;print(json.load(open('$d/meta.json'))['breaks_property'])")
   if ! git -C "$REPO" apply --check "$d/patch.diff" 2>/dev/null; then echo "$id $prop patch no longer applies (the code it changes has moved)"; continue; fi
   git -C "$REPO" apply "$d/patch.diff"
